@@ -37,6 +37,25 @@ Theorem C03_range_index_covers_block : forall vs, forallb wf_num vs = true -> vs
 Proof. exact range_of_covers. Qed.
 Print Assumptions C03_range_index_covers_block.
 
+(* ... also for a column that received numbers AND numeric strings: at the flush the strings are parsed and
+   added (consolidateColumnTypes / convertColumnToNumbers); the entry of the block covers every numeric value the
+   block's readers return, those parsed out of strings included *)
+Theorem C03_range_index_covers_consolidated_block : forall cs vs svs,
+  stored_values cs = Some vs -> str_vals cs = Some svs ->
+  forallb wf_num (natives cs ++ svs) = true -> vs <> [] ->
+  exists r, block_index cs = Some r /\ forall v, In v vs -> covers r v.
+Proof. exact range_index_covers_consolidated. Qed.
+Print Assumptions C03_range_index_covers_consolidated_block.
+
+(* the string-origin values are needed in the entry: {1,2,3,"50"}, val > 10 would lose the block otherwise *)
+Theorem C03_native_only_index_refuted :
+  exists cs vs r v, stored_values cs = Some vs /\ range_of (natives cs) = Some r /\ In v vs
+    /\ cmp_spec Gt (qval v) (inject_Z 10) = true
+    /\ check_range r Gt (LInt false 10) = false
+    /\ (exists r', block_index cs = Some r' /\ check_range r' Gt (LInt false 10) = true).
+Proof. exact native_only_index_refuted. Qed.
+Print Assumptions C03_native_only_index_refuted.
+
 (* guarded soundness of the block decision for `col op literal`, all operators, all blocks (records
    with and without the field, int and float values), all literals *)
 Theorem C03_range_prune_sound_guarded : forall cs o l lv,
@@ -111,17 +130,18 @@ Theorem C03_bloom_prune_sound :
   (forall b w, btest (badd b w) w = true) ->
   (forall b w x, btest b x = true -> btest (badd b w) x = true) ->
   forall vals v q ci,
-    In v vals -> keys_ok ci (tq_keys q) -> tq_negate q = false ->
+    In v vals -> keys_ok ci (tq_keys q) ->
     rec_accepts ci (tq_op q) (tq_keys q) v = true ->
     text_pass_rotated (btest (bloom_of B bempty badd vals)) q = true
     /\ text_pass_unrotated (btest (bloom_of B bempty badd vals)) q = true.
 Proof. exact bloom_prune_sound. Qed.
 Print Assumptions C03_bloom_prune_sound.
 
-(* bypass rules: NOT (rotated segments) and wildcard values never consult the filter *)
-Theorem C03_negate_bypass_rotated : forall test q, tq_negate q = true -> text_pass_rotated test q = true.
-Proof. exact negate_bypass_rotated. Qed.
-Print Assumptions C03_negate_bypass_rotated.
+(* bypass rules: NOT and wildcard values never consult the filter, on rotated and on open segments *)
+Theorem C03_negate_bypass : forall test q, tq_negate q = true ->
+  text_pass_rotated test q = true /\ text_pass_unrotated test q = true.
+Proof. exact negate_bypass. Qed.
+Print Assumptions C03_negate_bypass.
 
 Theorem C03_wildcard_bypass : forall test q, tq_wild_value q = true ->
   text_pass_rotated test q = true /\ text_pass_unrotated test q = true.
@@ -136,14 +156,21 @@ Theorem C03_bloom_prune_phrase_refuted :
 Proof. exact bloom_prune_phrase_refuted. Qed.
 Print Assumptions C03_bloom_prune_phrase_refuted.
 
-(* open segments have no NOT bypass: block {w:"beta"}, NOT alpha: dropped while open, kept once rotated *)
-Theorem C03_unrotated_negate_refuted :
+(* ---- PRE-FIX documentation (about [text_pass_unrotated_prefix], DoCMICheckForUnrotated before
+   "fix: do not prune blocks of open segments with the bloom for a negated match"): block {w:"beta"},
+   NOT alpha: dropped while the segment was open, kept once rotated; without NOT the check was the current one ---- *)
+Theorem C03_prefix_unrotated_negate_refuted :
   exists vals q, tq_negate q = true
     /\ (forall v, In v vals -> rec_accepts true (tq_op q) (tq_keys q) v = false)
-    /\ text_pass_unrotated (set_test (bloom_of (list bytes) [] set_add vals)) q = false
+    /\ text_pass_unrotated_prefix (set_test (bloom_of (list bytes) [] set_add vals)) q = false
     /\ text_pass_rotated (set_test (bloom_of (list bytes) [] set_add vals)) q = true.
-Proof. exact unrotated_negate_refuted. Qed.
-Print Assumptions C03_unrotated_negate_refuted.
+Proof. exact prefix_unrotated_negate_refuted. Qed.
+Print Assumptions C03_prefix_unrotated_negate_refuted.
+
+Theorem C03_prefix_unrotated_guarded : forall test q, tq_negate q = false ->
+  text_pass_unrotated_prefix test q = text_pass_unrotated test q.
+Proof. exact prefix_unrotated_guarded. Qed.
+Print Assumptions C03_prefix_unrotated_guarded.
 
 (* ----- layouts ----- *)
 
@@ -207,24 +234,37 @@ Theorem C03_dict_search_equiv :
 Proof. exact dict_search_equiv. Qed.
 Print Assumptions C03_dict_search_equiv.
 
-(* ... but the dictionary path does not apply NegateMatch (only the record loop does): equal without
-   NOT, different with NOT ({w:1},{w:2}, NOT 1: record loop [2], dictionary path [1]) *)
-Theorem C03_dict_search_neg_guarded :
+(* NegateMatch on dictionary-encoded blocks (the record loop always runs for a negated match and flips the
+   marks of the dictionary search): equal to the record-level search with and without NOT *)
+Theorem C03_dict_search_neg_equiv :
+  forall (event query value : Type) (col : query -> event -> value) (veqb : value -> value -> bool)
+         (mword : query -> value -> bool),
+  (forall x y, veqb x y = true <-> x = y) ->
+  forall neg q evs,
+    dict_search_neg event query value col veqb mword neg q evs
+    = rec_search_neg event query value col mword neg q evs.
+Proof. exact dict_search_neg_equiv. Qed.
+Print Assumptions C03_dict_search_neg_equiv.
+
+(* ---- PRE-FIX documentation (about [dict_search_neg_prefix], filterRecordsFromSearchQuery before
+   "fix: apply a negated match on dictionary encoded blocks and at ingest time"): when every searched column
+   was dictionary encoded the record loop was skipped and NOT never applied ({w:1},{w:2}, NOT 1: [1] instead of [2]) ---- *)
+Theorem C03_prefix_dict_search_neg_guarded :
   forall (event query value : Type) (col : query -> event -> value) (veqb : value -> value -> bool)
          (mword : query -> value -> bool),
   (forall x y, veqb x y = true <-> x = y) ->
   forall q evs,
-    dict_search_neg event query value col veqb mword false q evs
+    dict_search_neg_prefix event query value col veqb mword false q evs
     = rec_search_neg event query value col mword false q evs.
-Proof. exact dict_search_neg_guarded. Qed.
-Print Assumptions C03_dict_search_neg_guarded.
+Proof. exact prefix_dict_search_neg_guarded. Qed.
+Print Assumptions C03_prefix_dict_search_neg_guarded.
 
-Theorem C03_dict_search_neg_refuted :
+Theorem C03_prefix_dict_search_neg_refuted :
   exists evs q,
-    dict_search_neg N N N (fun _ e => e) N.eqb (fun q v => N.eqb q v) true q evs
+    dict_search_neg_prefix N N N (fun _ e => e) N.eqb (fun q v => N.eqb q v) true q evs
     <> rec_search_neg N N N (fun _ e => e) (fun q v => N.eqb q v) true q evs.
-Proof. exact dict_search_neg_refuted. Qed.
-Print Assumptions C03_dict_search_neg_refuted.
+Proof. exact prefix_dict_search_neg_refuted. Qed.
+Print Assumptions C03_prefix_dict_search_neg_refuted.
 
 (* range queries end to end in the model: with the guard on every block, any two layouts of the same
    events give the same answer; without it, n != 5 over {5, absent, 5, 6} depends on the split *)
